@@ -6,7 +6,7 @@
    textbook definitions of coq/C19/Spec.v; b_loop, a_loop, pr_p_loop, lp_loop, ideal_loop are the models of the code's loops
    (coq/C19/Mix.v) whose bodies are the regenerated increments. *)
 From Coq Require Import Reals QArith Qreals List String.
-From IPV Require Import Base.RExpr Base.IntervalEval C19.BExpr C19.Spec C19.PRProofs C19.Cardano C19.Mix C19.Checker C19.Summary Gen.Gen_C19_gases.
+From IPV Require Import Base.RExpr Base.IntervalEval C19.BExpr C19.Spec C19.PRProofs C19.Cardano C19.Mix C19.Kij C19.Checker C19.Summary Gen.Gen_C19_gases.
 Import ListNotations.
 Local Open Scope R_scope.
 
@@ -162,6 +162,17 @@ Theorem mixing_rules : forall (kf : nat -> nat -> R) (cs : list comp),
   (forall k, evalR (env_of [k]) bip_from_table = 1 - k) /\ evalR (env_of []) bip_default = 1.
 Proof. exact T_mixing_rules. Qed.
 Print Assumptions mixing_rules.
+
+(* --- the k_ij table read by read_gas_binary_parameters (model: every line `gas1 gas2 d` executes the regenerated stores
+       gas_binary_parameters[(x, y)] = v, operator[] + assignment = overwrite, in source order) is SYMMETRIC after ANY sequence of
+       definitions and redefinitions, in either ordering, and the last definition of a pair is the one in force for both
+       orderings - calc_PR looks k_ij up as (name_i, name_j), so this is what makes a_ij = a_ji --- *)
+Theorem binary_parameter_table_symmetric :
+  (forall ds a b, read_all bip_reader_stores ds (a, b) = read_all bip_reader_stores ds (b, a)) /\
+  (forall ds g1 g2 v, let t := read_all bip_reader_stores (ds ++ [(g1, g2, v)]) in t (g1, g2) = Some v /\ t (g2, g1) = Some v) /\
+  bip_reader_other_mutations = [].
+Proof. exact T_binary_parameter_table_symmetric. Qed.
+Print Assumptions binary_parameter_table_symmetric.
 
 (* --- partial pressures are mole-fraction shares of the total and sum to it (any number of components) --- *)
 Theorem partial_pressures_sum : forall (ns : list R) (P : R), sumR ns <> 0 ->
